@@ -469,6 +469,41 @@ def shape_guards_rule(index, ctx):
         ctx.require(bad is None, "R8", f"{f.short}: decides on shapes", "compares shape attributes directly",
                     (f"`{norm_text(bad[0])[:80]}` quantifies over the rows of `{bad[1]}`: for a value whose first dimension is 0 nothing is compared, so a value whose remaining shape "
                      "contradicts the key's is accepted") if bad else "", f.loc(bad[0]) if bad else f.loc())
+    # R9: "all values have the same first dimension" is not decided by a reduction in which differences cancel
+    ctx.rule("R9", "the dictionary-level check on first dimensions is not a signed reduction (sum / mean of consecutive differences telescopes to last - first: row counts (5, 6, 5) would pass)")
+    n9 = 0
+    for f in index.functions.values():
+        if f.module is not mod or not any(isinstance(x, ast.Raise) for x in ast.walk(f.node)):
+            continue
+        txt = ast.unparse(f.node)
+        if ".values()" not in txt or not (".shape[0]" in txt or ".size(0)" in txt or "len(" in txt):
+            continue
+        n9 += 1
+        single = {}
+        for a in ast.walk(f.node):
+            if isinstance(a, ast.Assign) and len(a.targets) == 1 and isinstance(a.targets[0], ast.Name):
+                single.setdefault(a.targets[0].id, []).append(a.value)
+
+        def names_in(e, depth=0):
+            out = set()
+            for x in ast.walk(e):
+                if isinstance(x, ast.Attribute):
+                    out.add(x.attr)
+                elif isinstance(x, ast.Name):
+                    out.add(x.id)
+                    if depth < 3 and len(single.get(x.id, [])) == 1:
+                        out |= names_in(single[x.id][0], depth + 1)
+                elif isinstance(x, ast.BinOp) and isinstance(x.op, ast.Pow):
+                    out.add("**")
+            return out
+
+        for iff in [x for x in ast.walk(f.node) if isinstance(x, ast.If) and any(isinstance(y, ast.Raise) for b in x.body for y in ast.walk(b))]:
+            ns = names_in(iff.test)
+            signed = ns & {"diff", "ediff1d"} and ns & {"sum", "mean", "nansum", "fsum"}
+            safe = ns & {"abs", "absolute", "square", "pow", "**", "any", "count_nonzero", "ne", "nonzero", "unique", "set", "norm", "vector_norm", "max", "min", "amax", "amin", "all"}
+            ctx.require(not (signed and not safe), "R9", f"{f.short}: `{norm_text(iff.test)[:70]}`", "no signed reduction of differences",
+                        "the test sums (or averages) consecutive differences of the first dimensions: the sum telescopes to last - first, so values whose first and last row counts "
+                        "agree are accepted whatever lies between them (e.g. 5, 6, 5) and a dictionary whose shapes contradict its type is created", f.loc(iff))
     ctx.floor("shape validators inspected", n, 2)  # at least the per-pair and the dictionary-level validator (a single generic per-pair comparison is one)
 
 
@@ -741,6 +776,8 @@ def check(index, ctx):
             "members require the same keys": ([("r",), ("r",), ("r",)], True),
             "one member requires other keys": ([("r",), ("r",), ("s",)], False),
             "the first member requires a superset": ([("r", "s"), ("r",), ("r",)], False),
+            "the last member requires a superset": ([("r",), ("r",), ("r", "s")], False),
+            "the members' requirements grow": ([("r",), ("r", "s")], False),
         }
         for name, (reqs, should_build) in STK.items():
             members = [make_select(r, r) for r in reqs]
